@@ -10,6 +10,8 @@ QUICK = [
     Shape(env=dict(x=(0, 2)), sys=dict(y='bool')),
     Shape(env=dict(x='bool'), sys=dict(y=(-1, 1)), const=dict(c='bool')),
     Shape(sys=dict(y=(0, 3))),
+    # a Boolean whose name looks like a bit of the integer next to it (x has bits x_0, x_1 only)
+    Shape(env=dict(x=(0, 2)), sys=dict(x_5='bool')),
 ]
 
 EXTRA = [
